@@ -5,7 +5,7 @@ _RULE = ("scenario = (limits, linger, manual flushing, 1-5 producer goroutines x
          "real kgo client x real kfake in a testing/synctest bubble (virtual time), history = hook, promise, verif-event and call/return events; "
          "non-trivial = at least 10 produce calls and at least one blocked producer or failed promise; distinct = distinct scenario descriptors")
 PROP = Prop(
-    "C14", harness="sim", quick=["--mode", "prod"], thorough=["--mode", "prod"], harness_kind="test", tags="verif synctests", driver="C14",
+    "C14", harness="sim", quick=["--mode", "prod,cons"], thorough=["--mode", "prod,cons"], harness_kind="test", tags="verif synctests", driver="C14",
     models=[("pkg/kgo/producer.go", ["Client.produce", "Client.finishRecordPromise", "producer.finishPromises", "Client.Flush"])],
     rule=_RULE,
     trusted_base=["history monitor Model.Producer (acceptor over events; the theorems say every accepted history satisfies the Spec)",
@@ -16,7 +16,7 @@ PROP = Prop(
     run_timeout={"quick": 900, "thorough": 3400},
 )
 MANIFEST = {
-    "text": "Verified monitor (produce half; the fetch half is checked by the consumer scenarios): Lean theorems over ALL accepted producer histories: each record gets the buffered hook "
+    "text": "Verified monitors (produce half over producer histories, fetch half over direct-consumer histories): Lean theorems over ALL accepted producer histories: each record gets the buffered hook "
             "at most once, the unbuffered hook at most once and only after the buffered one, the promise gets exactly the unbuffered hook's error, and at quiescence every buffered record "
             "was unbuffered exactly once. Tie: history correspondence with real kgo x kfake scenarios in synctest bubbles.",
     "note": "Trusted: Lean kernel; monitor vocabulary and harness (public Hook interfaces + promises). Error equality is compared by class and message hash.",
